@@ -170,7 +170,7 @@ def enc(t, v):
         return enc(STRUCTS["revision"], v)
     if k == "fixedstr":
         size = t["size"]
-        chars = v[:size]
+        chars = v[:size if t.get("cap") is None else t["cap"]]   # longer values are cut to the capacity, the data area is padded to size
         body = _encode_chars(chars, "latin-1", 1)
         return struct.pack("<I", len(chars)) + body + b"\x00" * (size - len(chars))
     if k == "structtag":
